@@ -914,7 +914,7 @@ Proof.
   unfold entry_of in Hg'. destruct (sfiles s (IdxP id)) as [c|] eqn:Ec; [|discriminate].
   assert (c <> []) as Hn by (intros ->; vm_compute in Hg'; discriminate).
   destruct (good_idx_lookup _ id c Ec Hn (Hj3 _ _ Ec)) as (d0 & t0 & Hps & Hb & _).
-  rewrite Hb in Hg. inversion Hg; subst. exists t0. auto.
+  rewrite Hb in Hg. inversion Hg; subst. eexists. split; [eassumption|split; reflexivity].
 Qed.
 
 (* the statements for lookups that are themselves interleaved, operation by operation, with the
@@ -941,3 +941,57 @@ Definition restore_invisible_full_statement : Prop :=
      exists tm, r = XFile (Found (DatP (H d0)) (H d0) (Z.of_nat (length d0)) tm)).
 
 End CacheRG.
+
+(* ---- the hypotheses of the C11 theorems, bundled *)
+Section Statements.
+Variable H : bytes -> bytes.
+Variable U : bytes -> Prop.
+Variable PS : bytes -> bytes -> Z -> Prop.
+Definition C11_hyps : Prop :=
+  (forall x, length (H x) = hash_size_n) /\ H_inj_on H U /\
+  (forall id d tm, PS id d tm ->
+     U d /\ length id = hash_size_n /\ (0 <= tm < int64_lim)%Z /\ (Z.of_nat (length d) < int64_lim)%Z).
+End Statements.
+
+
+Lemma conc_I1_hyps : forall H U PS, C11_hyps H U PS ->
+  forall callss fs0 sched,
+  Jc H U PS (init_sys fs0) -> Forall (Forall (call_ok PS)) callss ->
+  let s := snd (conc_run H callss fs0 sched) in
+  I1 H U (sfiles s) /\ (forall id c, sfiles s (IdxP id) = Some c -> good_idx H PS (sfiles s) id c).
+Proof. intros H U PS (H1 & H2 & H3). exact (conc_I1 H U H1 H2 PS H3). Qed.
+
+Lemma quiescent_all_readable_hyps : forall H U PS, C11_hyps H U PS ->
+  forall callss fs0 sched,
+  Jc H U PS (init_sys fs0) -> Forall (Forall (call_ok PS)) callss ->
+  let st := conc_run H callss fs0 sched in
+  finished (fst st) = true ->
+  forall calls id chunks tm, In calls callss -> In (CPut id chunks tm) calls ->
+  exists d tm', PS id d tm' /\
+    get_bytes H (sfiles (snd st)) id = Found d (H d) (Z.of_nat (length d)) tm' /\
+    get_file (sfiles (snd st)) id = Found (DatP (H d)) (H d) (Z.of_nat (length d)) tm'.
+Proof. intros H U PS (H1 & H2 & H3). exact (quiescent_all_readable H U H1 H2 PS H3). Qed.
+
+Lemma restore_invisible_partial_hyps : forall H U PS, C11_hyps H U PS ->
+  forall callss fs0 sched id,
+  Jc H U PS (init_sys fs0) -> Forall (Forall (call_ok PS)) callss ->
+  idx_nonempty id (init_sys fs0) ->
+  let s := snd (conc_run H callss fs0 sched) in
+  exists d tm', PS id d tm' /\
+    get_bytes H (sfiles s) id = Found d (H d) (Z.of_nat (length d)) tm' /\
+    get_file (sfiles s) id = Found (DatP (H d)) (H d) (Z.of_nat (length d)) tm'.
+Proof. intros H U PS (H1 & H2 & H3). exact (restore_invisible_partial H U H1 H2 PS H3). Qed.
+
+Lemma lookup_is_some_put_partial_hyps : forall H U PS, C11_hyps H U PS ->
+  forall callss fs0 sched id d out size tm,
+  Jc H U PS (init_sys fs0) -> Forall (Forall (call_ok PS)) callss ->
+  let s := snd (conc_run H callss fs0 sched) in
+  get_bytes H (sfiles s) id = Found d out size tm ->
+  exists tm', PS id d tm' /\ out = H d /\ size = Z.of_nat (length d).
+Proof. intros H U PS (H1 & H2 & H3). exact (lookup_is_some_put_partial H U H1 H2 PS H3). Qed.
+
+Lemma conc_sound_hyps : forall H U PS, C11_hyps H U PS ->
+  forall callss fs0 sched,
+  Jc H U PS (init_sys fs0) -> Forall (Forall (call_ok PS)) callss ->
+  sinv (Jc H U PS) (Gc H U PS) (post H) (call_ok PS) callss (conc_run H callss fs0 sched).
+Proof. intros H U PS (H1 & H2 & H3). exact (conc_sound H U H1 H2 PS H3). Qed.
